@@ -258,6 +258,10 @@ func (e *UtlsPreSharedKeyExtension) Read(b []byte) (int, error) {
 	if !e.OmitEmptyPsk && e.Len() == 0 {
 		return 0, ErrEmptyPsk
 	}
+	if e.Len() == 0 {
+		// Nothing is announced by Len() (no session): write nothing either.
+		return 0, io.EOF
+	}
 	return readPskIntoBytes(b, e.Identities, e.Binders)
 }
 
